@@ -35,6 +35,13 @@
      key) the statement is false: C18_push_refuted, witness evaluated by vm_compute, the same
      input reproduces on the implementation (corpus case of harness/props/c18.py).
    * [p_err out = None]: push / fetch returned (no exception escaped).
+   * Remote indexes.  The theorems are about remotes WITHOUT a tmp_dir (get_index =
+     ObjectDBIndexNoop: [run_round]).  Remotes with a tmp_dir use a real persistent index, carried
+     from group to group and round to round ([run_round_ix], Model/PushFetch.v); that run is tied to
+     the implementation by the correspondence and judged by the oracle on every scenario that has
+     such remotes, and it IS the index-free run wherever no group's remote has an index
+     (C18_noindex_tie).  Completeness with a real index needs the index to be sound for the remote
+     (C12's subject); it is not restated here.
    * Uploads are atomic in this model ([group_in] sets t_part := false of Model/Transfer.v: no
      truncated leftover, no Partial event - no_partial); C04 covers non-atomic uploads for a single
      transfer.  [wf] therefore also carries C04's trunc_unparsable, which for group_in reads
@@ -297,6 +304,14 @@ Theorem C18_wf_preserved : forall i1 i2,
   t_trunc i2 = t_trunc i1 -> wf i2.
 Proof. exact wf_next. Qed.
 Print Assumptions C18_wf_preserved.
+
+(* the run with real per-remote indexes coincides with the index-free run the theorems speak about
+   wherever no group's remote has an index (in particular: always, when no remote has a tmp_dir) *)
+Theorem C18_noindex_tie : forall e k gs w x a b,
+  (forall g, In g gs -> iget x (g_data g) = None) ->
+  run_groups_ix e k gs w x a b = (run_groups e k gs w a b, x).
+Proof. exact run_groups_ix_noindex. Qed.
+Print Assumptions C18_noindex_tie.
 
 (* non-vacuity: a concrete system (prefix inside a directory entry, two remotes) satisfies every
    hypothesis of C18_push / C18_counts / C18_retry for every failure oracle, and its run is the
